@@ -67,6 +67,26 @@ def run(ctx):
     if n == 0:
         raise vlib.Inconclusive("corpus worker failed: " + (p.stderr or "")[-1500:])
     ctx.cov["corpus_programs"] = n
+    # source modules delivered by an importer that renames them (file importer over an in-memory tree): compiling
+    # terminates with Bytecode or an error also for cycles written with relative names (the reader stops a compiler
+    # that keeps importing); only termination is charged here, the meaning of the layouts is C12's business
+    fres = ctx.path("modfiles.ndjson")
+    pf = ctx.vh("modfiles", fres, timeout=900, check=False)
+    nfiles = 0
+    if os.path.exists(fres):
+        for r in vlib.read_ndjson(fres):
+            if r.get("done"):
+                nfiles = r["n"]
+                continue
+            if not r["ok"] and r.get("termination"):
+                ctx.violation("modfiles|%s|%s" % (r["name"], r["noopt"]), "module layout %s (noopt=%s): %s\n%s" % (r["name"], r["noopt"], r["what"], json.dumps(r.get("files"), indent=1)), r)
+    if nfiles == 0:
+        if pf.returncode != 0 and ("stack overflow" in (pf.stderr or "") or "stack exceeds" in (pf.stderr or "")) and "ugo.(*Compiler)" in (pf.stderr or ""):
+            ctx.violation("modfiles|crash", "compiling a module layout recursed until the process died (fatal stack overflow in ugo.(*Compiler))", dict(src="see harness/cmd/vh/c12.go"))
+        else:
+            raise vlib.Inconclusive("module layout replay failed rc=%d: %s" % (pf.returncode, (pf.stderr or "")[-1500:]))
+    ctx.cov["module_layouts"] = nfiles
+    total += nfiles
     ctx.evaluations = total + 6 * n
     ctx.traces_validated = total // 2 + n
     ctx.nontrivial = ok_cases + n
